@@ -139,6 +139,10 @@ def witness_search(tier, seed):
     finally:
         shutil.rmtree(d, ignore_errors=True)
 
+# tables the statement pins down by value (props/constants_common.py)
+from props.constants_common import ClosedConstants   # noqa: E402
+UNITS = list(UNITS) + [ClosedConstants('default-encodings')]
+
 
 # supplier units (see props/suppliers.py): mutate and open rely on the loaders and on the serializers by their contracts
 from props import suppliers as _S   # noqa: E402
